@@ -644,17 +644,26 @@ def composed_lean_tv(chk, bins, index, index2, leaf_idx, c15_idx):
 def run(chk):
     chk.trusted = ["Lean 4.33 kernel; axioms propext/Classical.choice/Quot.sound at most", "Mathlib's ordered-field algebra (ring, field_simp, linarith)",
                    "translator harness/sym (T = Sym path extraction; Vec::length and Plane3::set(p1,p2,p3) modular), validated each run by TV "
-                   "(bitwise at float and double) and by evaluating the emitted Lean text at Rat",
+                   "(bitwise at float and double; random inputs and structured inputs with a leaf-coverage obligation) and by evaluating the emitted Lean "
+                   "text at Rat (entries without opaque calls directly; entries that call V*.length / Plane3.setPoints composed with the callee's own tree)",
                    "__float128 evaluation from integer lattice data as the oracle of the measured rounding residue"]
     chk.assumptions = ["theorems are over an arbitrary ordered field (exact arithmetic); `sqrt` is a parameter with the hypothesis SqrtSpec "
                        "(LenSpec for Vec::length is DERIVED from it for the real bodies: V3_length_LenSpec); sin/cos of rotatePoint are parameters",
-                       "lines are assumed to have unit directions where the C++ documents that assumption (closestPoints, closestPointTo(line), "
-                       "Sphere3::intersectT, rotatePoint); Plane3 * Matrix44 is proved for non-singular affine matrices with m[3][3] = 1",
+                       "lines are assumed to have unit directions where the C++ documents that assumption (closestPoints, closestPointTo(line), rotatePoint) and "
+                       "for Sphere3::intersectT (NOT documented in ImathSphere.h; zero / non-unit directions have their own out-of-domain theorems); the case "
+                       "analyses (*_cases) and the no-division-by-zero theorems need no such hypothesis",
+                       "Plane3 * Matrix44: unit normal; non-singular affine matrices (Plane3_mulM44) or ANY matrix for which the homogeneous w of the three "
+                       "construction points is non-zero (Plane3_mulM44_projective); w = 0 of a construction point is not covered",
+                       "in the total model x/0 = 0: 'no division by zero' is stated on the guard predicate of the branch that divides, not on values",
                        "rounding: NOT proved; measured on lattice configurations against the exact answers with bounds c*eps*scale*conditioning (partial)"]
-    chk.rule = ("theorems: all inputs over any ordered field. residue: points on the integer lattice [-4,4]^3 (lines through two lattice points, "
-                "planes through three, spheres with integer centre/radius, lattice triangles with half of the lines aimed at lattice points of the "
-                "triangle's plane incl. edges and vertices), a FAR class translated by (1024,-2048,512), exactly parallel and nearly parallel "
-                "(direction ratio 4..64) line pairs; float and double; decisions within c*eps of an edge / tangency / parallelism are counted, not judged")
+    chk.rule = ("theorems: all inputs over any ordered field. TV: random inputs + structured inputs (lattice triangles with lines aimed at edges / vertices / "
+                "interior / outside, degenerate triangles, lines parallel to the plane, parallel and nearly parallel line pairs, inputs that fire each "
+                "overflow guard with a non-zero denominator) with the obligation that every reachable leaf is compared. residue: points on the integer lattice "
+                "[-4,4]^3 (lines through two lattice points, planes through three, spheres with integer centre/radius, lattice triangles with half of the "
+                "lines aimed at lattice points of the triangle's plane incl. edges and vertices), a FAR class translated by (1024,-2048,512), exactly "
+                "parallel and nearly parallel (direction ratio 4..64) line pairs, an overflow-guard class (unit directions at angle 2^-20..2^-5, positions "
+                "scaled by a power of two so that the exact guard predicate on the stored values is ~4 or ~1/4), projective matrices with last column "
+                "(a,b,c,16)/16; float and double; decisions within c*eps of an edge / tangency / parallelism are counted, not judged")
     bins = troute.build_extractors(chk, [dict(name="sym_leaf", source="sym/sym_leaf.cpp"), dict(name="sym_c15", source="sym/sym_c15.cpp"),
                                          dict(name="sym_c15b", source="sym/sym_c15b.cpp"), dict(name="c15_residue", source="corr/c15_residue.cpp")])
     leaf_idx = os.path.join(troute.GEN, "index_leaf.txt")
